@@ -38,6 +38,7 @@ var curWorld *sessWorld
 // jEntry is one journal line: an endpoint call beginning or ending.
 type jEntry struct {
 	Seq   int           // global order (shared with API call/return marks)
+	Epoch int           // harness step (quiescence-to-quiescence interval) in which the entry was recorded
 	At    time.Duration // virtual time since world creation
 	Side  string        // "alpha" | "beta"
 	Inst  int           // which endpoint instance of that side (reconnects create new ones)
@@ -55,6 +56,7 @@ type apiCall struct {
 	Name     string
 	CallSeq  int
 	RetSeq   int // 0 while pending
+	RetEpoch int // harness step in which the call returned
 	CallAt   time.Duration
 	RetAt    time.Duration
 	Err      error
@@ -74,6 +76,7 @@ type sessWorld struct {
 	verbose   func(format string, args ...any)
 
 	mu      sync.Mutex
+	epoch   int // harness step counter: incremented by the harness before every event, i.e. only at quiescence
 	seq     int
 	journal []jEntry
 	inst    map[string]int
@@ -121,11 +124,20 @@ func (w *sessWorld) logf(format string, args ...any) {
 
 func (w *sessWorld) record(side string, inst int, op, phase, arg string) jEntry {
 	w.mu.Lock()
-	e := jEntry{Seq: w.nextSeq(), At: w.now(), Side: side, Inst: inst, Op: op, Phase: phase, Arg: arg}
+	e := jEntry{Seq: w.nextSeq(), Epoch: w.epoch, At: w.now(), Side: side, Inst: inst, Op: op, Phase: phase, Arg: arg}
 	w.journal = append(w.journal, e)
 	w.mu.Unlock()
 	w.logf("    journal %s", e)
 	return e
+}
+
+// nextEpoch starts a new harness step. Sequence numbers of entries recorded by
+// different goroutines inside one step may race with each other; step numbers
+// cannot, because the harness only moves on at quiescence.
+func (w *sessWorld) nextEpoch() {
+	w.mu.Lock()
+	w.epoch++
+	w.mu.Unlock()
 }
 
 // journalSince returns a copy of the journal entries with Seq > seq.
@@ -436,6 +448,7 @@ func (w *sessWorld) call(name string, fn func() error) *apiCall {
 		err := fn()
 		w.mu.Lock()
 		c.RetSeq = w.nextSeq()
+		c.RetEpoch = w.epoch
 		c.RetAt = w.now()
 		c.Err = err
 		w.mu.Unlock()
